@@ -1,6 +1,7 @@
 package props
 
 import (
+	"bytes"
 	"fmt"
 	"math/rand"
 	"os"
@@ -37,17 +38,18 @@ func init() {
 }
 
 type c09Pool struct {
-	kind       string
-	enz        c10Enzyme
-	frags      []oracle.LigFragment
-	designed   map[string]string // canonical -> spelling; nil when only the enumeration knows
-	simple     oracle.LigateResult
-	junctions  int
-	decoys     int
-	entering   int
-	flipped    int
-	duplicates int
-	relaxed    bool // termination pool: superset-of-simple + closed-walk rule
+	kind        string
+	enz         c10Enzyme
+	frags       []oracle.LigFragment
+	designed    map[string]string // canonical -> spelling; nil when only the enumeration knows
+	simple      oracle.LigateResult
+	junctions   int
+	decoys      int
+	entering    int
+	flipped     int
+	duplicates  int
+	invertedAlt int
+	relaxed     bool // termination pool: superset-of-simple + closed-walk rule
 }
 
 // c09Overhangs draws n overhangs of length ov: distinct, non-palindromic, no two reverse complements of each other.
@@ -99,10 +101,15 @@ func c09MaybeFlip(r *rand.Rand, f oracle.LigFragment, p *c09Pool) oracle.LigFrag
 	return f
 }
 
-func c09Designed(r *rand.Rand) *c09Pool {
+func c09Designed(r *rand.Rand, full ...bool) *c09Pool {
 	p := &c09Pool{kind: "designed", enz: c10Builtins[r.Intn(3)]}
 	g := p.enz.geo
 	k := 1 + r.Intn(6)
+	max := len(full) > 0 && full[0] // the largest design of the scope: 6 junctions x 3 alternatives = 729 rings
+	if max {
+		k = 6
+		p.kind = "designed-6x3"
+	}
 	alts := make([]int, k)
 	prod := 1
 	for i := range alts {
@@ -113,10 +120,13 @@ func c09Designed(r *rand.Rand) *c09Pool {
 		if prod*alts[i] > 243 {
 			alts[i] = 1
 		}
+		if max {
+			alts[i] = 3
+		}
 		prod *= alts[i]
 	}
 	nd := r.Intn(4)
-	if r.Intn(3) == 0 {
+	if r.Intn(3) == 0 || max {
 		nd = 0
 	}
 	ovs := c09Overhangs(r, k+2*nd, g.Ov)
@@ -124,9 +134,17 @@ func c09Designed(r *rand.Rand) *c09Pool {
 	X := ovs[k:]
 	used := map[string]bool{}
 	slots := make([][]string, k)
+	inverted := r.Intn(4) == 0 // one slot offers the same element in both orientations
 	for s := 0; s < k; s++ {
 		for a := 0; a < alts[s]; a++ {
 			in := c09Interior(r, J[s], J[(s+1)%k], g, used)
+			if inverted && a == 1 {
+				if rc := oracle.MustRevComp(slots[s][0]); rc != slots[s][0] && !c09HasSite(J[s]+rc+J[(s+1)%k], g) {
+					in = rc
+					p.invertedAlt++
+					inverted = false
+				}
+			}
 			slots[s] = append(slots[s], in)
 			p.frags = append(p.frags, c09MaybeFlip(r, oracle.LigFragment{Fwd: J[s], Seq: in, Rev: J[(s+1)%k]}, p))
 		}
@@ -321,41 +339,61 @@ type c09Run struct {
 	peakG     int
 }
 
-var c09Blocked = []string{"chan send", "chan receive", "semacquire", "sync.", "select"}
+var c09BlockedB = [][]byte{[]byte("chan send"), []byte("chan receive"), []byte("semacquire"), []byte("sync."), []byte("select")}
 
-func c09AllBlocked(dump string) (bool, string) {
+// c09DumpBuf is reused for every goroutine snapshot so that the supervisor itself allocates (almost) nothing:
+// its allocations would otherwise count against the monitored call's allocation budget.
+var c09DumpBuf = make([]byte, 16<<20)
+
+func c09AllBlocked(dump []byte) (bool, string) {
 	n, caller := 0, false
-	var desc []string
-	for _, gr := range strings.Split(dump, "\n\n") {
+	var states [6]string
+	marker := []byte("github.com/TimothyStiles/poly/clone.")
+	callerMarker := []byte("clone.CircularLigate(")
+	sep := []byte("\n\n")
+	for len(dump) > 0 {
+		gr := dump
+		if i := bytes.Index(dump, sep); i >= 0 {
+			gr, dump = dump[:i], dump[i+2:]
+		} else {
+			dump = nil
+		}
 		// any goroutine that runs, or was created by, code of package clone belongs to the simulation
 		// (a goroutine that has not run yet shows only as "clone.recurseLigate.gowrapN()" / "created by ...")
-		if !strings.Contains(gr, "github.com/TimothyStiles/poly/clone.") {
+		if !bytes.Contains(gr, marker) {
 			continue
 		}
-		if strings.Contains(gr, "clone.CircularLigate(") {
+		if bytes.Contains(gr, callerMarker) {
 			caller = true
 		}
-		i := strings.Index(gr, "[")
-		j := strings.Index(gr, "]")
+		i := bytes.IndexByte(gr, '[')
+		j := bytes.IndexByte(gr, ']')
 		if i < 0 || j < i {
 			return false, ""
 		}
 		st := gr[i+1 : j]
 		blocked := false
-		for _, b := range c09Blocked {
-			if strings.HasPrefix(st, b) {
+		for _, b := range c09BlockedB {
+			if bytes.HasPrefix(st, b) {
 				blocked = true
 			}
 		}
 		if !blocked {
 			return false, ""
 		}
-		n++
-		if len(desc) < 6 {
-			desc = append(desc, st)
+		if n < len(states) {
+			states[n] = string(st)
 		}
+		n++
 	}
-	return caller && n > 0, fmt.Sprintf("%d goroutines of the simulation, all blocked: %v", n, desc)
+	if !caller || n == 0 {
+		return false, ""
+	}
+	k := n
+	if k > len(states) {
+		k = len(states)
+	}
+	return true, fmt.Sprintf("%d goroutines of the simulation, all blocked: %v", n, states[:k])
 }
 
 // c09Supervise runs fn (a call into poly) in its own goroutine and watches its progress.
@@ -386,7 +424,7 @@ func c09Supervise(fn func() ([]clone.Part, error), budget uint64) c09Run {
 	tick := time.NewTicker(2 * time.Millisecond)
 	defer tick.Stop()
 	samples, consecutive := 0, 0
-	lastAlloc := ^uint64(0)
+	lastAlloc := uint64(0)
 	t0 := time.Now()
 	for {
 		select {
@@ -403,19 +441,20 @@ func c09Supervise(fn func() ([]clone.Part, error), budget uint64) c09Run {
 				run.exceeded = true
 				return run
 			}
-			if samples%25 == 0 {
-				buf := make([]byte, 1<<20)
-				n := runtime.Stack(buf, true)
-				for n == len(buf) && len(buf) < 1<<28 {
-					buf = make([]byte, 2*len(buf))
-					n = runtime.Stack(buf, true)
+			if samples%50 == 0 {
+				n := runtime.Stack(c09DumpBuf, true)
+				for n == len(c09DumpBuf) && len(c09DumpBuf) < 1<<29 {
+					c09DumpBuf = make([]byte, 2*len(c09DumpBuf))
+					n = runtime.Stack(c09DumpBuf, true)
 				}
-				if all, desc := c09AllBlocked(string(buf[:n])); all && run.allocated == lastAlloc {
+				// "no progress": every goroutine of the simulation parked and (next to) nothing allocated since the last
+				// snapshot (the supervisor's own few hundred bytes per snapshot are allowed for)
+				if all, desc := c09AllBlocked(c09DumpBuf[:n]); all && run.allocated-lastAlloc < 64<<10 {
 					consecutive++
 					if consecutive >= 3 {
 						run.deadlock = desc
 						if os.Getenv("VERIF_DEBUG") != "" {
-							fmt.Println(string(buf[:n]))
+							fmt.Println(string(c09DumpBuf[:n]))
 						}
 						return run
 					}
@@ -535,7 +574,7 @@ func runC09(w *mon.W) {
 		r := w.Rand(id)
 		var p *c09Pool
 		if i < nDesigned {
-			p = c09Designed(r)
+			p = c09Designed(r, i%96 == 95)
 		} else {
 			v := i - nDesigned
 			if v > 3 {
@@ -564,6 +603,9 @@ func runC09(w *mon.W) {
 		myReps := reps
 		if p.relaxed {
 			myReps = 5
+		}
+		if p.kind == "designed-6x3" {
+			myReps = 5 // 4,374 ring reports and about 6,500 goroutines per call
 		}
 		for _, procs := range procsList {
 			if !held {
@@ -660,6 +702,7 @@ func runC09(w *mon.W) {
 		w.Add("fragments_supplied_flipped", int64(p.flipped))
 		w.Add("decoy_fragments", int64(p.decoys))
 		w.Add("fragments_supplied_twice", int64(p.duplicates))
+		w.Add("slots_offering_an_insert_in_both_orientations", int64(p.invertedAlt))
 		if p.entering > 0 {
 			w.Add("pools_with_decoy_entering_ring", 1)
 		}
